@@ -172,25 +172,30 @@ theorem handleTurn_cases (env : Env) (s : State E) :
     (changedOf env s = true ∧ handleTurn env s = nextState env s (s.now + env.lat) true (s.writes + 1)) ∨
     (∃ d, changedOf env s = false ∧ minDelay (pass env s).delays = some d ∧
       handleTurn env s = nextState env s (s.now + (if d > env.cap then env.cap else d) + (latS env)) true (s.writes + cp env + 1)) ∨
-    (changedOf env s = false ∧ minDelay (pass env s).delays = none ∧
+    (changedOf env s = false ∧ (idle env = true ∨ minDelay (pass env s).delays = none) ∧
       handleTurn env s = nextState env s s.now false (s.writes + cp env)) := by
   by_cases hch : changedOf env s = true
   · left
     exact ⟨hch, by unfold handleTurn; rw [if_pos hch]⟩
   · have hch' : changedOf env s = false := by simpa using hch
     right
+    by_cases hid : idle env = true
+    · right
+      refine ⟨hch', Or.inl hid, ?_⟩
+      unfold handleTurn
+      rw [if_neg hch, if_pos hid]
     cases hm : minDelay (pass env s).delays with
     | some d =>
       left
       refine ⟨d, hch', rfl, ?_⟩
       unfold handleTurn
-      rw [if_neg hch]
+      rw [if_neg hch, if_neg hid]
       simp only [hm]
     | none =>
       right
-      refine ⟨hch', rfl, ?_⟩
+      refine ⟨hch', Or.inr rfl, ?_⟩
       unfold handleTurn
-      rw [if_neg hch]
+      rw [if_neg hch, if_neg hid]
       simp only [hm]
 
 /-- a purge of records that are not there changes nothing -/
@@ -229,6 +234,18 @@ theorem info_pass_twice {cfg : Cfg} {P : Store} {now now1 now' now1' : Tick} {ex
   · have hn' : (cfg.reason == "noop") = false := by simpa using hn
     rw [cycle_not_handler_reason_keeps cfg _ now' now1' exec hr hn']
 
+theorem info_pass_twice' {cfg cfg' : Cfg} {P : Store} {now now1 now' now1' : Tick} {exec : Id → Nat → Outcome}
+    (ho : cfg'.owned = cfg.owned) (hrs : cfg'.reason = cfg.reason)
+    (hr : handlerReasons.contains cfg.reason = false) (j : Id) :
+    (cycle cfg' (cycle cfg P now now1 exec).P' now' now1' exec).P' j = (cycle cfg P now now1 exec).P' j := by
+  have hr2 : handlerReasons.contains cfg'.reason = false := by rw [hrs]; exact hr
+  have h1 := info_pass_twice (cfg := cfg) (P := P) (now := now) (now1 := now1) (now' := now') (now1' := now1')
+    (exec := exec) hr j
+  rw [cycle_not_handler_reason cfg' _ now' now1' exec hr2]
+  rw [cycle_not_handler_reason cfg _ now' now1' exec hr] at h1
+  simp only [ho, hrs]
+  exact h1
+
 theorem closed_next_not_handler (s' : State E) (hm : s'.marked = false) (hb : s'.base = some s'.ess)
     (hf : s'.fullyHandled = true) : isHandler s' = false := by
   unfold isHandler causeOf
@@ -266,11 +283,11 @@ theorem selOf_sub (env : Env) (wf : WF env) (s : State E) : ∀ i ∈ selOf env 
 
 theorem Uv_filter_le (l : List Id) (p : Id → Bool) (P : Store) : Uv (l.filter p) P ≤ Uv l P := by
   unfold Uv
-  induction l with
-  | nil => simp
-  | cons a as ih =>
-    simp only [List.filter_cons]
-    cases hp : p a <;> cases hu : unfin P a <;> simp [hp, hu] <;> omega
+  rw [List.filter_filter]
+  apply filter_length_le_of_imp
+  intro x _ h
+  simp only [Bool.and_eq_true] at h
+  first | exact h.1 | exact h.2
 
 theorem Cv_filter_le (cap : Tick) (l : List Id) (p : Id → Bool) (P : Store) (t : Tick) :
     Cv cap (l.filter p) P t ≤ Cv cap l P t := by
@@ -298,6 +315,7 @@ theorem selOf_next (env : Env) (s : State E) (hc : (pass env s).closed = false) 
   intro i _
   unfold selOf
   cases env.initialH i <;> simp [List.contains_eq_mem, List.mem_append]
+  exact Bool.and_comm _ _
 
 theorem selOf_next_mem (env : Env) (s : State E) (hc : (pass env s).closed = false) (a : Tick) (b : Bool) (c : Nat)
     (i : Id) (hi : i ∈ selOf env s) (hu : unfin (pass env s).P' i = true) :
@@ -400,18 +418,20 @@ theorem handle_decreases (env : Env) (wf : WF env) (hfin : AllFinal env) (s : St
         causeOf_congr s _ (by simp [nextState, hcl]) rfl rfl (by simp [nextState, hcl]) rfl rfl
       have hh2 : isHandler (nextState env s (s.now + env.lat) true (s.writes + 1)) = false := by
         unfold isHandler; rw [hcz]; exact hh'
-      have hcfg : cfgOf env (nextState env s (s.now + env.lat) true (s.writes + 1)) = cfgOf env s := by
-        unfold cfgOf; rw [hcz]
+      have hrs : (cfgOf env (nextState env s (s.now + env.lat) true (s.writes + 1))).reason = (cfgOf env s).reason := by
+        show C14.reasonStr (causeOf (nextState env s (s.now + env.lat) true (s.writes + 1))).reason = _
+        rw [hcz]; rfl
+      have hr2 : handlerReasons.contains (cfgOf env (nextState env s (s.now + env.lat) true (s.writes + 1))).reason = false := by
+        rw [hrs]; exact hr'
       have hnc2 : changedOf env (nextState env s (s.now + env.lat) true (s.writes + 1)) = false := by
         have hid : ∀ j, (pass env (nextState env s (s.now + env.lat) true (s.writes + 1))).P' j
             = (nextState env s (s.now + env.lat) true (s.writes + 1)).P j := by
           intro j
           unfold pass
-          rw [hcfg]
-          exact info_pass_twice hr' j
+          exact info_pass_twice' (cfg := cfgOf env s) (cfg' := cfgOf env (nextState env s (s.now + env.lat) true (s.writes + 1))) rfl hrs hr' j
         have hc2 : (pass env (nextState env s (s.now + env.lat) true (s.writes + 1))).closed = false := by
-          unfold pass; rw [hcfg]
-          exact (cycle_not_handler_reason_invoked (cfgOf env s) _ _ _ env.exec hr').2
+          unfold pass
+          exact (cycle_not_handler_reason_invoked _ _ _ _ env.exec hr2).2
         unfold changedOf
         simp [hid, hc2]
       have : hbound env (nextState env s (s.now + env.lat) true (s.writes + 1)) = 1 := by
@@ -463,6 +483,7 @@ theorem handle_decreases (env : Env) (wf : WF env) (hfin : AllFinal env) (s : St
           + Cv env.cap (selOf env (nextState env s now' true w)) (pass env s).P' now' ∧
         A' = Av (selOf env (nextState env s now' true w)) (pass env s).P' now' ∧
         Uv (selOf env (nextState env s now' true w)) (pass env s).P' ≤ Uv (selOf env s) (pass env s).P' ∧
+        Cv env.cap (selOf env (nextState env s now' true w)) (pass env s).P' now' ≤ Cv env.cap (selOf env s) (pass env s).P' now' ∧
         Cv env.cap (selOf env (nextState env s now' true w)) (pass env s).P' now' ≤ Cv env.cap (selOf env s) s.P s.now := by
     intro now' w hle
     have hcz : causeOf (nextState env s now' true w) = causeOf s :=
@@ -479,13 +500,14 @@ theorem handle_decreases (env : Env) (wf : WF env) (hfin : AllFinal env) (s : St
       exact this
     have hX' : extras (cfgOf env (nextState env s now' true w)) (pass env s).P' now' = false :=
       noExtras_extras hsub' hne'
-    refine ⟨Av (selOf env (nextState env s now' true w)) (pass env s).P' now', ?_, rfl, ?_, ?_⟩
+    refine ⟨Av (selOf env (nextState env s now' true w)) (pass env s).P' now', ?_, rfl, ?_, ?_, ?_⟩
     · rw [hbound_of_open env _ rfl hpm hh']
       show 2 * Uv _ (pass env s).P' + Av _ (pass env s).P' now' +
         (if extras (cfgOf env (nextState env s now' true w)) (pass env s).P' now' = true then 1 else 0) + 1 + _ = _
       rw [hX']
       rfl
     · rw [selOf_next env s hc']; exact Uv_filter_le _ _ _
+    · rw [selOf_next env s hc']; exact Cv_filter_le _ _ _ _ _
     · rw [selOf_next env s hc']
       exact Nat.le_trans (Cv_filter_le _ _ _ _ _)
         (open_C_le (cfgOf env s) s.P s.now env.exec hsub hu hr hne hopen hfin env.cap now' hle)
@@ -498,8 +520,8 @@ theorem handle_decreases (env : Env) (wf : WF env) (hfin : AllFinal env) (s : St
     rcases handleTurn_cases env s with ⟨_, h⟩ | ⟨d, _, hm, h⟩ | ⟨_, _, h⟩
     · rw [h]
       have hle : s.now ≤ s.now + env.lat := int_le_add s.now env.lat wf.lat
-      obtain ⟨k1, k2⟩ := key _ _ hle
-      have := hAle (s.now + env.lat)
+      obtain ⟨A', k1, kA, kU, kCf, kC⟩ := key _ _ hle
+      have hA' : A' ≤ 1 := by rw [kA]; exact Av_le_one _ _ _
       rw [k1, hb]; omega
     · rw [h]
       have hd : 0 ≤ d := by
@@ -508,8 +530,8 @@ theorem handle_decreases (env : Env) (wf : WF env) (hfin : AllFinal env) (s : St
         rw [cycle_main _ _ _ _ _ hr hne] at hmem
         exact delays_nonneg _ _ _ d hmem
       have hle := int_sleep_le s.now d env.cap (latS env) hd wf.cap (latS_nonneg env wf)
-      obtain ⟨k1, k2⟩ := key _ _ hle
-      have := hAle (s.now + (if d > env.cap then env.cap else d) + (latS env))
+      obtain ⟨A', k1, kA, kU, kCf, kC⟩ := key _ _ hle
+      have hA' : A' ≤ 1 := by rw [kA]; exact Av_le_one _ _ _
       rw [k1, hb]; omega
     · rw [h, hb, hbound_not_pending _ _ rfl]; omega
   have hna : ∀ i ∈ (cfgOf env s).selected, awakeP s.P s.now i = false := by
@@ -523,8 +545,8 @@ theorem handle_decreases (env : Env) (wf : WF env) (hfin : AllFinal env) (s : St
     rcases handleTurn_cases env s with ⟨_, h⟩ | ⟨d, _, hm, h⟩ | ⟨_, _, h⟩
     · rw [h]
       have hle : s.now ≤ s.now + env.lat := int_le_add s.now env.lat wf.lat
-      obtain ⟨k1, k2⟩ := key _ _ hle
-      have := hAle (s.now + env.lat)
+      obtain ⟨A', k1, kA, kU, kCf, kC⟩ := key _ _ hle
+      have hA' : A' ≤ 1 := by rw [kA]; exact Av_le_one _ _ _
       rw [k1, hb, hA]; simp only [hex, if_true]; omega
     · rw [h]
       have hd : 0 ≤ d := by
@@ -533,8 +555,8 @@ theorem handle_decreases (env : Env) (wf : WF env) (hfin : AllFinal env) (s : St
         rw [cycle_main _ _ _ _ _ hr hne] at hmem
         exact delays_nonneg _ _ _ d hmem
       have hle := int_sleep_le s.now d env.cap (latS env) hd wf.cap (latS_nonneg env wf)
-      obtain ⟨k1, k2⟩ := key _ _ hle
-      have := hAle (s.now + (if d > env.cap then env.cap else d) + (latS env))
+      obtain ⟨A', k1, kA, kU, kCf, kC⟩ := key _ _ hle
+      have hA' : A' ≤ 1 := by rw [kA]; exact Av_le_one _ _ _
       rw [k1, hb, hA]; simp only [hex, if_true]; omega
     · rw [h, hb, hbound_not_pending _ _ rfl]; omega
   -- nobody is due, nothing to re-purpose: the pass leaves the object alone; sleep, then touch
@@ -556,7 +578,7 @@ theorem handle_decreases (env : Env) (wf : WF env) (hfin : AllFinal env) (s : St
       rw [if_pos hcap] at h
       rw [h]
       have hle : s.now ≤ s.now + env.cap + (latS env) := int_le_add2 s.now env.cap (latS env) wf.cap (latS_nonneg env wf)
-      obtain ⟨k1, k2⟩ := key _ _ hle
+      obtain ⟨A', k1, kA, kU, kCf, kC⟩ := key _ _ hle
       have hstrict : Cv env.cap (selOf env s) (pass env s).P' (s.now + env.cap + (latS env))
           < Cv env.cap (selOf env s) s.P s.now := by
         unfold Cv
@@ -567,7 +589,7 @@ theorem handle_decreases (env : Env) (wf : WF env) (hfin : AllFinal env) (s : St
           exact int_slack_lt dd s.now env.cap (latS env) wf.cap (latS_nonneg env wf) (int_cap_lt env.cap d dd s.now hcap hdeq)
         · intro k hk
           exact open_slack (cfgOf env s) s.P s.now s.now env.exec hsub hu hr hne hopen hfin env.cap _ hle k hk
-      have hA' := hAle (s.now + env.cap + (latS env))
+      have hA' : A' ≤ 1 := by rw [kA]; exact Av_le_one _ _ _
       rw [k1, hb, hA]
       simp only [hex', Bool.false_eq_true, if_false]
       omega
@@ -575,12 +597,17 @@ theorem handle_decreases (env : Env) (wf : WF env) (hfin : AllFinal env) (s : St
       rw [if_neg hcap] at h
       rw [h]
       have hle : s.now ≤ s.now + d + (latS env) := int_le_add3 s.now d (latS env) hd (latS_nonneg env wf)
-      obtain ⟨k1, k2⟩ := key _ _ hle
-      have hAw : Av (selOf env s) (pass env s).P' (s.now + d + (latS env)) = 0 := by
+      obtain ⟨A', k1, kA, kU, kCf, kC⟩ := key _ (s.writes + cp env + 1) hle
+      have hAw : A' = 0 := by
+        rw [kA]
         unfold Av
-        have : (selOf env s).any (awakeP (pass env s).P' (s.now + d + (latS env))) = true := by
+        have hiN : i ∈ selOf env (nextState env s (s.now + d + (latS env)) true (s.writes + cp env + 1)) := by
+          apply selOf_next_mem env s hc' _ _ _ i hi
+          unfold unfin; rw [hid i, hP]; simp [hrf]
+        have : (selOf env (nextState env s (s.now + d + (latS env)) true (s.writes + cp env + 1))).any
+            (awakeP (pass env s).P' (s.now + d + (latS env))) = true := by
           rw [List.any_eq_true]
-          refine ⟨i, hi, ?_⟩
+          refine ⟨i, hiN, ?_⟩
           unfold awakeP
           rw [hid i, hP]
           simp only [Rec.awakened, Rec.sleeping, hrf, hrd, Bool.not_false, Bool.true_and, Bool.not_eq_true',
